@@ -579,7 +579,7 @@ Section Flat.
     destruct Hnd' as [Hi Hndk].
     assert (Ekids : kids_in batch i = map (kidnode j nm ap i) ks).
     { unfold batch. rewrite !kids_in_app.
-      destruct (Hctx i (or_introl eq_refl)) as [-> ->]. rewrite app_nil_r. simpl app.
+      destruct (Hctx i (or_introl eq_refl)) as [-> ->]. rewrite app_nil_r. cbn [app].
       cbn [flatten]. change (kids_in (?a :: ?l) i) with (kids_in ([a] ++ l) i).
       rewrite kids_in_app.
       assert (E1 : kids_in [mknode i par j nm ty 0 0 ap] i = []).
@@ -593,8 +593,8 @@ Section Flat.
       rewrite Forall_forall in IH.
       assert (Hb : batch = (pre ++ mknode i par j nm ty 0 0 ap :: flat_map (flatten j nm ap (Some i)) ks1)
                      ++ flatten j nm ap (Some i) k ++ (flat_map (flatten j nm ap (Some i)) ks2 ++ post)).
-      { unfold batch. cbn [flatten]. rewrite Eks, flat_map_app. simpl.
-        rewrite <- !app_assoc. simpl. rewrite <- !app_assoc. reflexivity. }
+      { unfold batch. cbn [flatten]. rewrite Eks, flat_map_app. cbn [flat_map].
+        rewrite <- ?app_assoc. cbn [app]. rewrite <- ?app_assoc. reflexivity. }
       rewrite Hb. rewrite Eks, flat_map_app in Hndk. simpl in Hndk.
       apply IH; try exact Hin; try reflexivity.
       - apply NoDup_app_r in Hndk. apply NoDup_app_l in Hndk. exact Hndk.
@@ -606,7 +606,7 @@ Section Flat.
         assert (Hne : i <> i').
         { intros <-. apply Hi. apply in_flat_map. exists k. auto. }
         split.
-        + rewrite kids_in_app, Hpre. simpl.
+        + rewrite kids_in_app, Hpre. cbn [app].
           change (kids_in (?a :: ?l) i') with (kids_in ([a] ++ l) i'). rewrite kids_in_app.
           assert (E1 : kids_in [mknode i par j nm ty 0 0 ap] i' = []).
           { unfold kids_in; simpl. destruct par as [p|]; [|reflexivity].
@@ -626,3 +626,228 @@ Section Flat.
     cbv zeta in H1, H2. rewrite H1, H2. reflexivity.
   Qed.
 End Flat.
+
+(** ** The store built from a list of traces *)
+
+Lemma flatten_forall (P : node -> Prop) j nm ap :
+  (forall i par ty, P (mknode i par j nm ty 0 0 ap)) ->
+  forall t par, Forall P (flatten j nm ap par t).
+Proof.
+  intros HP. induction t as [i ty ks IH] using ltree_ind'. intros par. cbn [flatten].
+  constructor; [apply HP|]. apply Forall_forall. intros n Hn. apply in_flat_map in Hn.
+  destruct Hn as [k [Hk Hn]]. rewrite Forall_forall in IH.
+  specialize (IH k Hk (Some i)). rewrite Forall_forall in IH. apply IH, Hn.
+Qed.
+
+Lemma trace_nodes_job tr n : In n (trace_nodes tr) -> njob n = tjob tr.
+Proof.
+  intros Hn. unfold trace_nodes in Hn.
+  assert (H := flatten_forall (fun n => njob n = tjob tr) (tjob tr) (tname tr) app0
+                 (fun _ _ _ => eq_refl) (ttree tr) None).
+  rewrite Forall_forall in H. apply H, Hn.
+Qed.
+
+Lemma trace_nodes_times tr n : In n (trace_nodes tr) -> nst n = 0%Z /\ nen n = 0%Z.
+Proof.
+  intros Hn. unfold trace_nodes in Hn.
+  assert (H := flatten_forall (fun n => nst n = 0%Z /\ nen n = 0%Z) (tjob tr) (tname tr) app0
+                 (fun _ _ _ => conj eq_refl eq_refl) (ttree tr) None).
+  rewrite Forall_forall in H. apply H, Hn.
+Qed.
+
+Lemma filter_all {A} (f : A -> bool) l : (forall a, In a l -> f a = true) -> filter f l = l.
+Proof.
+  induction l as [|x l IH]; intros H; simpl; [reflexivity|].
+  rewrite (H x (or_introl eq_refl)), IH; [reflexivity|]. intros a Ha. apply H. right; exact Ha.
+Qed.
+Lemma filter_none {A} (f : A -> bool) l : (forall a, In a l -> f a = false) -> filter f l = [].
+Proof.
+  induction l as [|x l IH]; intros H; simpl; [reflexivity|].
+  rewrite (H x (or_introl eq_refl)), IH; [reflexivity|]. intros a Ha. apply H. right; exact Ha.
+Qed.
+
+Lemma filter_flat_map_traces (p : node -> bool) (q : trace -> bool) traces :
+  (forall tr n, In tr traces -> In n (trace_nodes tr) -> p n = q tr) ->
+  filter p (flat_map trace_nodes traces) = flat_map trace_nodes (filter q traces).
+Proof.
+  induction traces as [|tr l IH]; intros H; simpl; [reflexivity|].
+  rewrite filter_app, IH by (intros tr' n Htr Hn; apply H; [right; exact Htr | exact Hn]).
+  destruct (q tr) eqn:Eq; simpl.
+  - f_equal. apply filter_all. intros n Hn. rewrite (H tr n (or_introl eq_refl) Hn). exact Eq.
+  - rewrite filter_none; [reflexivity|]. intros n Hn. rewrite (H tr n (or_introl eq_refl) Hn). exact Eq.
+Qed.
+
+Lemma NoDup_all_ids_filter (q : trace -> bool) traces :
+  NoDup (all_ids traces) -> NoDup (all_ids (filter q traces)).
+Proof.
+  unfold all_ids. induction traces as [|tr l IH]; intros H; simpl; [constructor|].
+  simpl in H. destruct (q tr); simpl.
+  - assert (Hl := IH (NoDup_app_r _ _ H)).
+    revert H Hl. generalize (tids (ttree tr)). intros a. induction a as [|x a IHa]; intros H Hl; simpl; [exact Hl|].
+    simpl in H. inversion H as [|x' l' Hx Hr]; subst. constructor; [|apply IHa; assumption].
+    intros Hin. apply Hx. apply in_app_or in Hin. apply in_or_app. destruct Hin as [Hin|Hin]; [left; exact Hin|right].
+    apply in_flat_map in Hin. destruct Hin as [tr' [Htr' Hin]]. apply filter_In in Htr'.
+    apply in_flat_map. exists tr'. tauto.
+  - apply IH. eapply NoDup_app_r, H.
+Qed.
+
+Section Store.
+  Variable D : Type.
+  Variable dleb : D -> D -> bool.
+  Variable X : positive -> list D -> D.
+  Notation thash := (thash D dleb X).
+  Notation hash_node := (hash_node D dleb X).
+
+  Lemma job_batch traces js :
+    filter (fun n => memp (njob n) js) (db (store_of traces)) =
+    db (store_of (filter (fun tr => memp (tjob tr) js) traces)).
+  Proof.
+    simpl. apply filter_flat_map_traces. intros tr n _ Hn. rewrite (trace_nodes_job tr n Hn). reflexivity.
+  Qed.
+
+  (** whole-store version: the batch is the complete nodes table of [traces] *)
+  Lemma hash_node_whole traces tr fuel :
+    NoDup (all_ids traces) -> In tr traces -> (depth (ttree tr) < fuel)%nat ->
+    hash_node fuel (db (store_of traces)) (rootnode tr) = Some (thash (ttree tr)).
+  Proof.
+    intros Hnd Hin Hfuel. destruct (in_split _ _ Hin) as [pre [post E]]. subst traces.
+    simpl. rewrite flat_map_app. simpl. unfold trace_nodes at 2.
+    unfold all_ids in Hnd. rewrite flat_map_app in Hnd. simpl in Hnd.
+    apply hash_node_ctx; try reflexivity; try exact Hfuel.
+    - apply NoDup_app_r in Hnd. apply NoDup_app_l in Hnd. exact Hnd.
+    - intros i _. discriminate.
+    - intros i Hi. split; apply kids_in_flat_map_nil; intros tr' Htr'; apply kids_in_flatten_nil;
+        try discriminate.
+      + intros Hin'. apply (NoDup_app_disj _ _ i Hnd); [apply in_flat_map; exists tr'; auto|].
+        apply in_or_app. left. exact Hi.
+      + intros Hin'. apply NoDup_app_r in Hnd. apply (NoDup_app_disj _ _ i Hnd Hi).
+        apply in_flat_map. exists tr'. auto.
+  Qed.
+
+  Lemma length_whole traces tr :
+    In tr traces -> (length (tids (ttree tr)) <= length (db (store_of traces)))%nat.
+  Proof.
+    intros Hin. destruct (in_split _ _ Hin) as [pre [post E]]. subst traces.
+    simpl. rewrite flat_map_app. simpl. rewrite !app_length.
+    unfold trace_nodes at 2. rewrite <- (flatten_ids (tjob tr) (tname tr) app0 None), map_length. lia.
+  Qed.
+
+  (** Target 3 *)
+  Theorem hash_node_store traces js tr fuel :
+    NoDup (all_ids traces) -> In tr traces -> In (tjob tr) js ->
+    (depth (ttree tr) < fuel)%nat ->
+    hash_node fuel (filter (fun n => memp (njob n) js) (db (store_of traces))) (rootnode tr)
+    = Some (thash (ttree tr)).
+  Proof.
+    intros Hnd Hin Hj Hfuel. rewrite job_batch. apply hash_node_whole; [| |exact Hfuel].
+    - apply NoDup_all_ids_filter, Hnd.
+    - apply filter_In. split; [exact Hin | apply memp_In, Hj].
+  Qed.
+
+  (** ... in particular with the fuel used by [batch_hashes] *)
+  Theorem hash_node_store_batch_fuel traces js tr :
+    NoDup (all_ids traces) -> In tr traces -> In (tjob tr) js ->
+    let batch := filter (fun n => memp (njob n) js) (db (store_of traces)) in
+    hash_node (S (length batch)) batch (rootnode tr) = Some (thash (ttree tr)).
+  Proof.
+    intros Hnd Hin Hj batch. apply hash_node_store; try assumption.
+    unfold batch. rewrite job_batch. apply Nat.lt_succ_r.
+    eapply Nat.le_trans; [apply depth_le_size|]. apply length_whole.
+    apply filter_In. split; [exact Hin | apply memp_In, Hj].
+  Qed.
+
+  (** * Target 4: paging *)
+
+  Lemma chunks_map {A B} (f : A -> B) bs : forall n l,
+    chunks n bs (map f l) = map (map f) (chunks n bs l).
+  Proof.
+    induction n as [|n IH]; intros [|x l]; try reflexivity.
+    cbn [chunks]. change (f x :: map f l) with (map f (x :: l)).
+    rewrite firstn_map, skipn_map, IH. reflexivity.
+  Qed.
+
+  Lemma chunks_incl {A} bs : forall n (l p : list A), In p (chunks n bs l) -> incl p l.
+  Proof.
+    induction n as [|n IH]; intros [|x l] p Hp; try (destruct Hp; fail).
+    cbn [chunks] in Hp. destruct Hp as [<-|Hp]; intros a Ha.
+    - rewrite <- (firstn_skipn bs (x :: l)). apply in_or_app. left; exact Ha.
+    - rewrite <- (firstn_skipn bs (x :: l)). apply in_or_app. right. exact (IH _ _ Hp a Ha).
+  Qed.
+
+  Lemma chunks_concat {A} bs : (0 < bs)%nat -> forall n (l : list A),
+    (length l <= n)%nat -> concat (chunks n bs l) = l.
+  Proof.
+    intros Hbs. induction n as [|n IH]; intros [|x l] Hl; try reflexivity.
+    - simpl in Hl. lia.
+    - cbn [chunks concat]. rewrite IH; [apply firstn_skipn|].
+      rewrite skipn_length. simpl length in *. lia.
+  Qed.
+
+  Lemma is_root_flatten_some j nm ap : forall t p, filter is_root (flatten j nm ap (Some p) t) = [].
+  Proof.
+    induction t as [i ty ks IH] using ltree_ind'. intros p. cbn [flatten filter is_root npar].
+    induction IH as [|k ks Hk _ IHks]; simpl; [reflexivity|]. rewrite filter_app, Hk. exact IHks.
+  Qed.
+
+  Lemma is_root_trace tr : filter is_root (trace_nodes tr) = [rootnode tr].
+  Proof.
+    unfold trace_nodes, rootnode. destruct (ttree tr) as [i ty ks]. cbn [flatten filter is_root npar lid lty].
+    f_equal. induction ks as [|k ks IH]; simpl; [reflexivity|].
+    rewrite filter_app, is_root_flatten_some. exact IH.
+  Qed.
+
+  Lemma in_window_store traces w n : In n (db (store_of traces)) -> in_window w n = win0 w.
+  Proof.
+    simpl. intros Hn. apply in_flat_map in Hn. destruct Hn as [tr [_ Hn]].
+    destruct (trace_nodes_times tr n Hn) as [E1 E2]. unfold in_window, win0. rewrite E1, E2.
+    apply orb_diag.
+  Qed.
+
+  Lemma roots_store traces w :
+    roots w (store_of traces) = if win0 w then map rootnode traces else [].
+  Proof.
+    unfold roots, window_jobs.
+    rewrite (filter_ext_in (in_window w) (fun _ => win0 w) _ (in_window_store traces w)).
+    destruct (win0 w).
+    - rewrite (filter_all (fun _ : node => true) (db (store_of traces))) by reflexivity.
+      rewrite (filter_ext_in _ is_root).
+      + simpl. induction traces as [|tr l IH]; simpl; [reflexivity|].
+        rewrite filter_app, is_root_trace, IH. reflexivity.
+      + intros n Hn. rewrite (proj2 (memp_In _ _) (in_map njob _ _ Hn)). apply andb_true_r.
+    - rewrite (filter_none (fun _ : node => false) (db (store_of traces))) by reflexivity.
+      apply filter_none. intros n _. apply andb_false_r.
+  Qed.
+
+  Lemma batch_hashes_page traces tp :
+    NoDup (all_ids traces) -> incl tp traces ->
+    batch_hashes D dleb X (store_of traces) (map rootnode tp) = map (row_of D thash) tp.
+  Proof.
+    intros Hnd Hincl. unfold batch_hashes. rewrite map_map. apply map_ext_in. intros tr Htr.
+    unfold row_of. cbn [njob nname rootnode]. f_equal.
+    apply hash_node_store_batch_fuel; [exact Hnd | apply Hincl, Htr|].
+    change (tjob tr) with (njob (rootnode tr)). apply in_map, in_map, Htr.
+  Qed.
+
+  Theorem all_hashes_store traces bs w :
+    NoDup (all_ids traces) -> (0 < bs)%nat ->
+    all_hashes D dleb X bs w (store_of traces) =
+    if win0 w then map (row_of D thash) traces else [].
+  Proof.
+    intros Hnd Hbs. unfold all_hashes. destruct bs as [|b]; [inversion Hbs|].
+    rewrite roots_store. destruct (win0 w); [|reflexivity].
+    rewrite map_length, chunks_map, flat_map_concat_map, map_map.
+    rewrite (map_ext_in _ (map (row_of D thash))).
+    - rewrite <- concat_map, chunks_concat; [reflexivity | lia | apply Nat.le_refl].
+    - intros tp Htp. apply batch_hashes_page; [exact Hnd|]. eapply chunks_incl, Htp.
+  Qed.
+
+  Theorem paging_indep traces w bs1 bs2 :
+    NoDup (all_ids traces) -> (0 < bs1)%nat -> (0 < bs2)%nat ->
+    all_hashes D dleb X bs1 w (store_of traces) = all_hashes D dleb X bs2 w (store_of traces).
+  Proof.
+    intros Hnd H1 H2. rewrite !all_hashes_store by assumption. reflexivity.
+  Qed.
+End Store.
+
+Example bs_zero_selects_nothing : forall w st, find_unique 0 w st = [].
+Proof. reflexivity. Qed.
